@@ -116,6 +116,15 @@ def subclassify(spec, v, rng, p=0.7):
         if rng.random() < p:
             return rng.choice([collections.OrderedDict, MyMapping, lambda x: collections.defaultdict(list, x)])(d)
         return spec.info["cls"](d)
+    if k == "struct" and str(spec.info.get("flavour", "")).startswith("typeddict") and type(v) is dict:
+        # a TypedDict value is a dict at run time - any dict: ordered, or one with a default factory (whose __missing__ inserts on a
+        #   failed subscription). Keys the value leaves out stay left out.
+        fields = {f[0]: f[1] for f in spec.info["fields"]}
+        d = {kk: (subclassify(fields[kk], vv, rng, p) if kk in fields else vv) for kk, vv in v.items()}
+        if rng.random() < p:
+            return rng.choice([collections.OrderedDict, lambda x: collections.defaultdict(list, x), lambda x: collections.defaultdict(int, x),
+                               lambda x: collections.defaultdict(lambda: None, x)])(d)
+        return d
     return v
 
 
